@@ -514,22 +514,42 @@ func c04StartTLS(w *World, r *Report) {
 		}
 		capVal := constant.StringVal(capConst.Val())
 		n, bad := 0, ""
-		allInstrs(hs, func(in ssa.Instruction) {
-			// appending the capability string: a store of the constant into a slice backing array, or a Const operand of append
-			mentions := false
-			for _, op := range in.Operands(nil) {
-				if c, ok := (*op).(*ssa.Const); ok && c.Value != nil && c.Value.Kind() == constant.String && constant.StringVal(c.Value) == capVal {
-					mentions = true
+		for _, g := range staticCone(hs, 2) {
+			// only the server connection's own methods / helpers
+			allInstrs(g, func(in ssa.Instruction) {
+				// appending the capability string: a store of the constant into a slice backing array, or a Const operand of append
+				mentions := false
+				for _, op := range in.Operands(nil) {
+					if c, ok := (*op).(*ssa.Const); ok && c.Value != nil && c.Value.Kind() == constant.String && constant.StringVal(c.Value) == capVal {
+						mentions = true
+					}
 				}
-			}
-			if !mentions {
-				return
-			}
-			n++
-			if !dominatedByCond(hs, in, func(v ssa.Value) bool { return isLoadOfField(v, flag) }, false) {
+				if !mentions {
+					return
+				}
+				n++
+				isFlag := func(v ssa.Value) bool { return isLoadOfField(v, flag) }
+				if dominatedByCond(g, in, isFlag, false) {
+					return
+				}
+				// or every call site of the helper inside the handshake is itself under !secure
+				if g != hs {
+					okAll, nc := true, 0
+					for _, c := range callsIn(hs) {
+						if c.Common().StaticCallee() == g {
+							nc++
+							if !dominatedByCond(hs, c, isFlag, false) {
+								okAll = false
+							}
+						}
+					}
+					if nc > 0 && okAll {
+						return
+					}
+				}
 				bad = fmt.Sprintf("%s: StartTLS is advertised on a path where the carrier may already be secure", w.Pos(in.Pos()))
-			}
-		})
+			})
+		}
 		if n == 0 {
 			r.Violate("R04.4", key, w.Pos(hs.Pos()), "the server never advertises StartTLS")
 		} else {
